@@ -27,6 +27,28 @@ def accum2_loop(rng, N):
     return {"nodes": nodes, "bound": {}, "entrypoints": None, "selected": None, "loop": {"family": "accum2", "N": N}}
 
 
+def late_signal_loop(rng, m, N, kind):
+    """Loop family L3: the gate (closed by default) waits on a signal emitted by an auditor of the loop variable, i.e. the
+    gate's data input changes one superstep BEFORE the signal it waits for is produced again."""
+    nodes = []
+    prev = "x"
+    for j in range(1, m + 1):
+        out = "x" if j == m else f"y{j}"
+        nodes.append({"name": f"b{j}", "kind": "func", "inputs": [prev], "outputs": [out], "emit": [], "wait_for": [], "defaults": {}, "fn": ["add", 1]})
+        prev = out
+    nodes.append({"name": "aud", "kind": "func", "inputs": ["x"], "outputs": ["rep"], "emit": ["done"], "wait_for": [], "defaults": {}, "fn": ["sym", "aud"]})
+    bound = m * N
+    if kind == "ifelse":
+        gate = {"name": "gate", "kind": "ifelse", "inputs": ["x"], "outputs": [], "emit": [], "wait_for": ["done"], "defaults": {},
+                "fn": ["glt", bound], "when_true": "b1", "when_false": "END", "default_open": False}
+    else:
+        gate = {"name": "gate", "kind": "route", "inputs": ["x"], "outputs": [], "emit": [], "wait_for": ["done"], "defaults": {},
+                "fn": ["gtable", [[k, "b1"] for k in range(0, bound)], "END"], "targets": ["b1", "END"], "multi": False, "fallback": None, "default_open": False}
+    nodes.append(gate)
+    rng.shuffle(nodes)
+    return {"nodes": nodes, "bound": {}, "entrypoints": None, "selected": None, "loop": {"family": "L3", "m": m, "N": N, "kind": kind}}
+
+
 def run(ctx):
     rng = ctx.rng
     cases, meta = [], []
@@ -55,6 +77,11 @@ def run(ctx):
         for runner in ("sync", "async"):
             cases.append((g, dict(base_rc, runner=runner, inputs={"x": 0, "hist": 0}, max_iterations=60)))
             meta.append({"family": "accum2", "N": N})
+    for m in (1, 2, 3):
+        for N in ([0, 1, 2, 5] if ctx.quick() else range(0, 9)):
+            g = late_signal_loop(rng, m, N, rng.choice(["route", "ifelse"]))
+            cases.append((g, dict(base_rc, runner=rng.choice(["sync", "async"]), inputs={"x": 0}, max_iterations=200, sched_seed=rng.randint(0, 10**6))))
+            meta.append({"family": "L3", "m": m, "N": N})
     # accumulator riding on an L1 loop (self-producer rule)
     for _ in range(ctx.n(10, 150)):
         g = gen.gen_loop(rng, accum=True)
@@ -104,6 +131,19 @@ def run(ctx):
                 if steps > md["fuel"]:
                     msgs.append(f"{steps} supersteps executed with max_iterations={md['fuel']}")
                 nontrivial.add((m, N, ws, md["exit"], g["loop"]["kind"], md["fuel"]))
+        elif md["family"] == "L3":
+            m, N = md["m"], md["N"]
+            if obs["status"] != "completed":
+                msgs.append(f"late-signal loop did not complete: {obs['status']} {obs.get('error_repr')}")
+            else:
+                exp = {f"b{j}": N for j in range(1, m + 1)}
+                exp.update(gate=N + 1, aud=N + 1)
+                for nm, e in exp.items():
+                    if count(obs, nm) != e:
+                        msgs.append(f"{nm} ran {count(obs, nm)} times, the sequential while loop runs it {e} times (N={N})")
+                if N >= 1 and obs["values"].get("x") != m * N:
+                    msgs.append(f"final x is {obs['values'].get('x')}, the sequential loop ends with {m * N}")
+                nontrivial.add(("L3", m, N, rc["runner"]))
         elif md["family"] == "accum2":
             N = md["N"]
             exp = max(N, 0)
@@ -128,6 +168,7 @@ def run(ctx):
         evaluations=len(cases), coq_checks=res["n"], distinct_nontrivial=len(nontrivial),
         rule="loop families L1 (gate reads x) / L2 (gate waits on the last body node's emit): body length 1-4, N in 0..12, gate kinds "
              "route/ifelse, exit via END or exit node, max_iterations in {need-1, need, need+1, 200}; accumulator loops with one and with two "
-             "ordered self-producers; both runners; non-trivial = N >= 2, or a run at the budget boundary",
+             "ordered self-producers; L3: a closed-by-default gate waiting on a signal emitted by an auditor of the loop variable (the gate's input "
+             "changes one superstep before its signal); both runners; non-trivial = N >= 2, or a run at the budget boundary",
         distribution={"loops": len(combos)}, samples=[{"graph": cases[0][0]["nodes"], "run": cases[0][1], "meta": meta[0]}],
         traces_validated_against_impl=len(obs_all), disagreements_checked=res["n"])
